@@ -232,7 +232,7 @@ func (r *rewriter) typeOf(e ast.Expr) types.Type {
 	// nodes created by the access rewrite: look through mcrt.RMap(x) / mcrt.WMap(x) and (*mcrt.R(&x)) / (*mcrt.W(&x))
 	switch x := e.(type) {
 	case *ast.CallExpr:
-		if (isMcrtCall(x, "RMap") || isMcrtCall(x, "WMap")) && len(x.Args) == 1 {
+		if (isMcrtCall(x, "RMap") || isMcrtCall(x, "WMap") || isMcrtCall(x, "RSlice") || isMcrtCall(x, "WSlice") || isMcrtCall(x, "AppendW")) && len(x.Args) == 1 {
 			return r.typeOf(x.Args[0])
 		}
 	case *ast.ParenExpr:
@@ -764,6 +764,18 @@ func (r *rewriter) rewriteAccess() {
 		_, ok := t.Underlying().(*types.Map)
 		return ok
 	}
+	isSliceT := func(e ast.Expr) bool {
+		t := r.typeOf(e)
+		if t == nil {
+			return false
+		}
+		_, ok := t.Underlying().(*types.Slice)
+		return ok
+	}
+	// slices: the backing array is the shared object (a slice returned by a method may alias a cached field)
+	idxSlice := map[*ast.IndexExpr]bool{}
+	idxSliceW := map[*ast.IndexExpr]bool{}
+	rangeSlice := map[*ast.RangeStmt]bool{}
 	idxMap := map[*ast.IndexExpr]bool{}
 	rangeMap := map[*ast.RangeStmt]bool{}
 	callMap := map[*ast.CallExpr]string{}
@@ -772,10 +784,26 @@ func (r *rewriter) rewriteAccess() {
 		case *ast.IndexExpr:
 			if isMapT(x.X) {
 				idxMap[x] = true
+			} else if isSliceT(x.X) {
+				idxSlice[x] = true
 			}
 		case *ast.RangeStmt:
 			if isMapT(x.X) {
 				rangeMap[x] = true
+			} else if isSliceT(x.X) {
+				rangeSlice[x] = true
+			}
+		case *ast.AssignStmt:
+			if x.Tok != token.DEFINE {
+				for _, l := range x.Lhs {
+					if ix, ok := strip(l).(*ast.IndexExpr); ok && isSliceT(ix.X) {
+						idxSliceW[ix] = true
+					}
+				}
+			}
+		case *ast.IncDecStmt:
+			if ix, ok := strip(x.X).(*ast.IndexExpr); ok && isSliceT(ix.X) {
+				idxSliceW[ix] = true
 			}
 		}
 		return true
@@ -806,6 +834,21 @@ func (r *rewriter) rewriteAccess() {
 						callMap[x] = "len"
 					}
 				}
+				if _, builtin := r.info.Uses[id].(*types.Builtin); builtin {
+					if id.Name == "append" && isSliceT(x.Args[0]) {
+						callMap[x] = "append"
+					} else if id.Name == "copy" && len(x.Args) == 2 && isSliceT(x.Args[0]) {
+						callMap[x] = "copy"
+					}
+				}
+			}
+			if len(x.Args) >= 1 && isSliceT(x.Args[0]) {
+				for _, f := range [][2]string{{"sort", "Slice"}, {"sort", "SliceStable"}, {"sort", "Ints"}, {"sort", "Strings"}, {"sort", "Float64s"},
+					{"slices", "Sort"}, {"slices", "SortFunc"}, {"slices", "SortStableFunc"}, {"slices", "Reverse"}} {
+					if r.isPkgFunc(x.Fun, f[0], f[1]) {
+						callMap[x] = "sortlike"
+					}
+				}
 			}
 		case *ast.ValueSpec:
 			for _, nm := range x.Names {
@@ -831,11 +874,21 @@ func (r *rewriter) rewriteAccess() {
 				} else {
 					n.X = r.call("RMap", n.X)
 				}
+			} else if idxSlice[n] {
+				r.stats["access-slice"]++
+				if idxSliceW[n] {
+					n.X = r.call("WSlice", n.X)
+				} else {
+					n.X = r.call("RSlice", n.X)
+				}
 			}
 		case *ast.RangeStmt:
 			if rangeMap[n] {
 				r.stats["access-map"]++
 				n.X = r.call("RMap", n.X)
+			} else if rangeSlice[n] {
+				r.stats["access-slice"]++
+				n.X = r.call("RSlice", n.X)
 			}
 		case *ast.CallExpr:
 			switch callMap[n] {
@@ -843,6 +896,17 @@ func (r *rewriter) rewriteAccess() {
 				n.Args[0] = r.call("RMap", n.Args[0])
 			case "delete":
 				n.Args[0] = r.call("WMap", n.Args[0])
+			case "append":
+				if !n.Ellipsis.IsValid() || len(n.Args) == 2 {
+					r.stats["access-slice"]++
+					n.Args[0] = r.call("AppendW", n.Args[0])
+				}
+			case "copy":
+				r.stats["access-slice"]++
+				n.Args[0] = r.call("WSlice", n.Args[0])
+			case "sortlike":
+				r.stats["access-slice"]++
+				n.Args[0] = r.call("WSlice", n.Args[0])
 			}
 		case *ast.SelectorExpr:
 			if noTouch[n] {
